@@ -658,3 +658,239 @@ Lemma binding_forms_refuted :
   py_owner w_k4_py 1%N = Some (OScope 1) /\ supp_owners cfg_fixed no_env w_k4_supp 1%N = [OModule] /\
   supp_owners cfg_fixed no_env w_k4_py 1%N = [OScope 1].
 Proof. vm_compute. repeat split; reflexivity. Qed.
+
+(* ------------------------------------------------------------------------------------------ *)
+(* existence: where CPython's lookup can succeed, supp offers an owner in the same scope        *)
+(* ------------------------------------------------------------------------------------------ *)
+
+Lemma last_indep : forall (up : list frame) d1 d2, up <> [] -> last up d1 = last up d2.
+Proof.
+  induction up as [|a up IH]; intros d1 d2 NE; [congruence|].
+  destruct up as [|b up]; [reflexivity|].
+  change (last (a :: b :: up) d1) with (last (b :: up) d1).
+  change (last (a :: b :: up) d2) with (last (b :: up) d2).
+  apply IH. discriminate.
+Qed.
+
+Definition offers_nf (e : env) (ch : list frame) (x : name) (d : frame) : bool :=
+  is_local cfg_fixed (last ch d) x || grouted e x || builtin e x.
+
+Lemma top_names_nonempty : forall e m x,
+  is_local cfg_fixed m x || grouted e x || builtin e x = true ->
+  exists o, In o (top_names cfg_fixed e m x) /\ coarse o = OGlobal.
+Proof.
+  intros e m x H. unfold top_names.
+  destruct (is_local cfg_fixed m x).
+  - exists OModule. split; [left; reflexivity|reflexivity].
+  - simpl in H. simpl app. destruct (grouted e x).
+    + exists OModule. split; [left; reflexivity|reflexivity].
+    + simpl in H. rewrite H. exists OBuiltin. split; [left; reflexivity|reflexivity].
+Qed.
+
+Local Ltac fixed_flags := change (f26 cfg_fixed) with true in *; change (f14 cfg_fixed) with true in *.
+
+Lemma scope_names_cons2 : forall c e a b up x,
+  scope_names c e (a :: b :: up) x =
+  match fkind a with
+  | KClass => scope_names c e (b :: up) x
+  | _ => if is_local c a x then [OScope (length (b :: up))]
+         else (if is_routed c a x then [resolve_nonlocal c (b :: up) x (length (b :: up))] else []) ++
+              (if f26 c && mem x (fglobal a) then top_names c e (last_frame (b :: up) a) x
+               else scope_names c e (b :: up) x)
+  end.
+Proof. reflexivity. Qed.
+
+Lemma scope_names_fun_eq : forall c e a b up x,
+  is_module (fkind a) = false -> is_class (fkind a) = false ->
+  scope_names c e (a :: b :: up) x =
+  if is_local c a x then [OScope (length (b :: up))]
+  else (if is_routed c a x then [resolve_nonlocal c (b :: up) x (length (b :: up))] else []) ++
+       (if f26 c && mem x (fglobal a) then top_names c e (last_frame (b :: up) a) x
+        else scope_names c e (b :: up) x).
+Proof.
+  intros c e a b up x NM NC. rewrite scope_names_cons2.
+  destruct (fkind a); try discriminate NM; try discriminate NC; reflexivity.
+Qed.
+
+Lemma supp_owners_nf_cons2 : forall c e a b up x,
+  supp_owners_nf c e (a :: b :: up) x =
+  (if is_local c a x then [OScope (length (b :: up))] else []) ++
+  (if is_routed c a x then [resolve_nonlocal c (b :: up) x (length (b :: up))] else []) ++
+  (if is_local c a x && negb (is_class (fkind a)) then []
+   else if f26 c && mem x (fglobal a) then top_names c e (last_frame (b :: up) a) x
+   else scope_names c e (b :: up) x).
+Proof. reflexivity. Qed.
+
+(* a closure variable: the function symtable.c keeps in `bound` is among what the scope offers *)
+Lemma scope_names_complete_free : forall e up x d,
+  shape_nf up = true -> pbound (st_nf up x) = Some d -> In (OScope d) (scope_names cfg_fixed e up x).
+Proof.
+  induction up as [|a up IH]; intros x d SH H; [rewrite st_nf_nil in H; discriminate H|].
+  rewrite st_nf_cons in H.
+  destruct up as [|b up].
+  - simpl in SH. rewrite child_state_module in H by (destruct (fkind a); try discriminate SH; reflexivity).
+    discriminate H.
+  - destruct (shape_nf_cons _ _ _ SH) as [NM SH'].
+    destruct (is_class (fkind a)) eqn:KC.
+    + assert (fkind a = KClass) as KK by (destruct (fkind a); try discriminate KC; reflexivity).
+      rewrite scope_names_cons2, KK. rewrite child_state_class in H by exact KK. apply IH; assumption.
+    + pose proof (kind_cases _ NM KC) as KF. rewrite scope_names_fun_eq by assumption.
+      destruct (classify a x) as [G|G NL|G NL B|G NL B].
+      * rewrite child_state_fun_global in H by assumption. discriminate H.
+      * rewrite child_state_fun_nonlocal in H by assumption.
+        unfold is_local, declared_nonlocal. fixed_flags. rewrite G, NL. simpl.
+        rewrite andb_false_r. simpl. apply in_or_app. right. apply IH; assumption.
+      * rewrite child_state_fun_bound in H by assumption. inversion H; subst d.
+        unfold is_local, declared_nonlocal. fixed_flags. rewrite B, G, NL. simpl. left. reflexivity.
+      * rewrite child_state_fun_use in H by assumption.
+        unfold is_local, is_routed. rewrite B, G. simpl. apply IH; assumption.
+Qed.
+
+(* a global: when nothing on the chain binds the name, the module-level lookup is reached *)
+Lemma scope_names_complete_global : forall e up x dflt,
+  shape_nf up = true -> pbound (st_nf up x) = None -> offers_nf e up x dflt = true ->
+  exists o, In o (scope_names cfg_fixed e up x) /\ coarse o = OGlobal.
+Proof.
+  induction up as [|a up IH]; intros x dflt SH H OF; [discriminate SH|].
+  destruct up as [|b up].
+  - change (scope_names cfg_fixed e [a] x) with (top_names cfg_fixed e a x).
+    apply top_names_nonempty. exact OF.
+  - destruct (shape_nf_cons _ _ _ SH) as [NM SH'].
+    rewrite st_nf_cons in H.
+    assert (offers_nf e (b :: up) x dflt = true) as OF' by exact OF.
+    destruct (is_class (fkind a)) eqn:KC.
+    + assert (fkind a = KClass) as KK by (destruct (fkind a); try discriminate KC; reflexivity).
+      rewrite scope_names_cons2, KK. rewrite child_state_class in H by exact KK. eapply IH; eassumption.
+    + pose proof (kind_cases _ NM KC) as KF. rewrite scope_names_fun_eq by assumption.
+      destruct (classify a x) as [G|G NL|G NL B|G NL B].
+      * assert (last_frame (b :: up) a = last (b :: up) dflt) as LF
+          by (unfold last_frame; apply last_indep; discriminate).
+        rewrite LF. set (M := last (b :: up) dflt) in *.
+        unfold is_local, is_routed. fixed_flags. rewrite G. simpl. rewrite !andb_false_r. simpl.
+        apply top_names_nonempty. unfold offers_nf in OF'. exact OF'.
+      * rewrite child_state_fun_nonlocal in H by assumption.
+        destruct (IH x dflt SH' H OF') as [o [O1 O2]]. exists o. split; [|exact O2].
+        unfold is_local, declared_nonlocal. fixed_flags. rewrite G, NL. simpl.
+        rewrite andb_false_r. simpl. apply in_or_app. right. exact O1.
+      * rewrite child_state_fun_bound in H by assumption. discriminate H.
+      * rewrite child_state_fun_use in H by assumption.
+        destruct (IH x dflt SH' H OF') as [o [O1 O2]]. exists o. split; [|exact O2].
+        unfold is_local, is_routed. rewrite B, G. simpl. exact O1.
+Qed.
+
+Theorem supp_owners_nf_complete : forall e ch x dflt,
+  shape_nf ch = true ->
+  match py_owner (rev ch) x with
+  | Some (OScope d) => In (OScope d) (supp_owners_nf cfg_fixed e ch x)
+  | Some OGlobal => offers_nf e ch x dflt = true ->
+                    exists o, In o (supp_owners_nf cfg_fixed e ch x) /\ coarse o = OGlobal
+  | _ => True
+  end.
+Proof.
+  intros e ch x dflt SH. destruct ch as [|a up]; [discriminate SH|].
+  rewrite py_owner_rev, analyze_name_scope.
+  destruct up as [|b up].
+  - (* a read at module level *)
+    change (supp_owners_nf cfg_fixed e [a] x) with (top_names cfg_fixed e a x).
+    rewrite st_nf_nil. simpl pbound.
+    destruct (mem x (fglobal a)); [intros OF; apply top_names_nonempty; exact OF|].
+    destruct (mem x (fnonlocal a)); [exact I|].
+    destruct (mem x (fbound a)); intros OF; apply top_names_nonempty; exact OF.
+  - destruct (shape_nf_cons _ _ _ SH) as [NM SH'].
+    rewrite supp_owners_nf_cons2.
+    destruct (classify a x) as [G|G NL|G NL B|G NL B].
+    + (* declared global: looked up at module level *)
+      rewrite G. intros OF.
+      assert (last_frame (b :: up) a = last (b :: up) dflt) as LF
+        by (unfold last_frame; apply last_indep; discriminate).
+      unfold offers_nf in OF. change (last (a :: b :: up) dflt) with (last (b :: up) dflt) in OF.
+      rewrite LF. set (M := last (b :: up) dflt) in *.
+      unfold is_local, is_routed. fixed_flags. rewrite G. simpl. rewrite !andb_false_r. simpl.
+      apply top_names_nonempty. exact OF.
+    + (* declared nonlocal: free in the function recorded in bound *)
+      rewrite G, NL. destruct (pbound (st_nf (b :: up) x)) as [d|] eqn:PB; [|exact I].
+      unfold is_local, declared_nonlocal. fixed_flags. rewrite G, NL. simpl.
+      rewrite andb_false_r. simpl. apply in_or_app. right.
+      apply scope_names_complete_free; assumption.
+    + (* a local of the reading scope: its own names are among the candidates *)
+      rewrite G, NL, B.
+      unfold is_local, declared_nonlocal. fixed_flags. rewrite B, G, NL. simpl. left. reflexivity.
+    + (* only used *)
+      rewrite G, NL, B.
+      unfold is_local, is_routed. rewrite B, G. simpl.
+      destruct (pbound (st_nf (b :: up) x)) as [d|] eqn:PB.
+      * apply scope_names_complete_free; assumption.
+      * intros OF. eapply scope_names_complete_global; [exact SH'|exact PB|exact OF].
+Qed.
+
+Lemma last_rev_hd : forall (fs : list frame) m r d, fs = m :: r -> last (rev fs) d = m.
+Proof. intros fs m r d E. subst fs. simpl. apply last_last. Qed.
+
+Theorem supp_owner_exists : forall e fs x,
+  shape_ok fs = true ->
+  match py_owner fs x with
+  | Some (OScope d) => In (OScope d) (supp_owners cfg_fixed e fs x)
+  | Some OGlobal => module_offers e fs x = true ->
+                    exists o, In o (supp_owners cfg_fixed e fs x) /\ coarse o = OGlobal
+  | _ => True
+  end.
+Proof.
+  intros e fs x SH. unfold supp_owners.
+  destruct fs as [|m r]; [discriminate SH|].
+  pose proof (supp_owners_nf_complete e (rev (m :: r)) x m SH) as H.
+  rewrite rev_involutive in H.
+  destruct (py_owner (m :: r) x) as [[d| | |]|]; try exact H; try exact I.
+  intros MO. apply H. unfold offers_nf. rewrite (last_rev_hd (m :: r) m r m eq_refl). exact MO.
+Qed.
+
+(* the block CPython resolves a closure variable / local to does bind the name *)
+Lemma st_nf_bound_binds : forall up x d,
+  pbound (st_nf up x) = Some d ->
+  exists f, frame_at up d = Some f /\ mem x (fbound f) = true /\ function_like (fkind f) = true.
+Proof.
+  induction up as [|a up IH]; intros x d H; [rewrite st_nf_nil in H; discriminate H|].
+  rewrite st_nf_cons in H.
+  assert (forall f, frame_at up d = Some f -> frame_at (a :: up) d = Some f) as LIFT.
+  { intros f F. simpl. pose proof (frame_at_lt _ _ _ F) as LT.
+    destruct (Nat.eqb d (length up)) eqn:E; [apply Nat.eqb_eq in E; lia|exact F]. }
+  destruct (function_like (fkind a)) eqn:KF.
+  - destruct (classify a x) as [G|G NL|G NL B|G NL B].
+    + rewrite child_state_fun_global in H by assumption. discriminate H.
+    + rewrite child_state_fun_nonlocal in H by assumption.
+      destruct (IH x d H) as [f [F1 F2]]. exists f. split; [apply LIFT; exact F1|exact F2].
+    + rewrite child_state_fun_bound in H by assumption. inversion H; subst d.
+      exists a. simpl. rewrite Nat.eqb_refl. repeat split; assumption.
+    + rewrite child_state_fun_use in H by assumption.
+      destruct (IH x d H) as [f [F1 F2]]. exists f. split; [apply LIFT; exact F1|exact F2].
+  - destruct (fkind a) eqn:KK; try discriminate KF.
+    + rewrite child_state_module in H by assumption. discriminate H.
+    + rewrite child_state_class in H by assumption.
+      destruct (IH x d H) as [f [F1 F2]]. exists f. split; [apply LIFT; exact F1|exact F2].
+Qed.
+
+Theorem py_owner_binds : forall fs x d,
+  py_owner fs x = Some (OScope d) ->
+  exists f, nth_error fs d = Some f /\ mem x (fbound f) = true.
+Proof.
+  intros fs x d H. rewrite <- (rev_involutive fs) in H.
+  destruct (rev fs) as [|a up] eqn:R.
+  - simpl in H. unfold py_owner, py_scope in H. simpl in H. discriminate H.
+  - rewrite py_owner_rev, analyze_name_scope in H.
+    assert (fs = rev (a :: up)) as FS by (rewrite <- R, rev_involutive; reflexivity).
+    assert (forall f, frame_at (a :: up) d = Some f -> nth_error fs d = Some f) as NTH
+      by (intros f F; rewrite FS; apply frame_at_rev; exact F).
+    assert (forall f, frame_at up d = Some f -> frame_at (a :: up) d = Some f) as LIFT.
+    { intros f F. simpl. pose proof (frame_at_lt _ _ _ F) as LT.
+      destruct (Nat.eqb d (length up)) eqn:E; [apply Nat.eqb_eq in E; lia|exact F]. }
+    destruct (mem x (fglobal a)); [discriminate H|].
+    destruct (mem x (fnonlocal a)).
+    { destruct (pbound (st_nf up x)) as [d'|] eqn:PB; [|discriminate H]. inversion H; subst d'.
+      destruct (st_nf_bound_binds up x d PB) as [f [F1 [F2 _]]].
+      exists f. split; [apply NTH, LIFT; exact F1|exact F2]. }
+    destruct (mem x (fbound a)) eqn:B.
+    { destruct up as [|b up]; [discriminate H|]. inversion H; subst d.
+      exists a. split; [|exact B]. apply NTH. simpl. rewrite Nat.eqb_refl. reflexivity. }
+    destruct (pbound (st_nf up x)) as [d'|] eqn:PB; [|discriminate H]. inversion H; subst d'.
+    destruct (st_nf_bound_binds up x d PB) as [f [F1 [F2 _]]].
+    exists f. split; [apply NTH, LIFT; exact F1|exact F2].
+Qed.
